@@ -63,10 +63,18 @@ TokOf(s, mu) == s.tok[s.byMinUnit[mu]]
 HasMinUnit(s, mu) == mu \in DOMAIN s.byMinUnit
 NoContract == ""
 
-(* keeper/token.go GetToken: by symbol first, then by min unit *)
+(* Symbols and min units are two separate key spaces (store prefixes 0x01 and
+   0x02): a name may be the symbol of one token and the min unit of another.
+   IssueToken checks each space on its own; EditToken / TransferTokenOwner
+   resolve by SYMBOL; MintToken, BurnToken, DeployERC20, SwapToERC20,
+   SwapFromERC20 and the burned side of SwapFeeToken resolve by MIN UNIT (the
+   bank denom).  keeper/token.go GetToken(denom) tries the symbol first, then
+   the min unit; calcFeeTokenMinted uses it for the MINTED side. *)
 KnownDenom(s, d) == d \in DOMAIN s.tok \/ HasMinUnit(s, d) \/ d = STAKE
 ScaleOf(s, d) == IF d \in DOMAIN s.tok THEN s.tok[d].scale
                  ELSE IF HasMinUnit(s, d) THEN TokOf(s, d).scale ELSE 0
+(* the scale of the token whose coin the bank denom d is *)
+ScaleOfMinUnit(s, d) == IF HasMinUnit(s, d) THEN TokOf(s, d).scale ELSE 0
 
 (* keeper/fees.go feeHandler: fee -> module; tax -> fee collector; rest burned *)
 DeductFee(s, who, fee) ==
@@ -110,9 +118,7 @@ DoEdit(s, who, sym, max, mintable) ==
     ELSE
       LET t2 == [t EXCEPT !.max = IF max > 0 THEN max ELSE @,
                           !.mintable = IF mintable = "" THEN @ ELSE mintable = "true"]
-          why == IF max > 0 /\ max * Pow10(t.scale) < s.supply[t.minUnit]
-                 THEN "f5_edit_floor" ELSE ""
-      IN DoneW([s EXCEPT !.tok[sym] = t2], why)
+      IN Done([s EXCEPT !.tok[sym] = t2])
 
 (* msg_server.go TransferTokenOwner; keeper.go TransferTokenOwner *)
 DoTransferOwner(s, who, sym, to) ==
@@ -166,7 +172,10 @@ DoSwapFee(s, who, mu, amt, to) ==
     ELSE IF ~RowFits(amt, reg.rn, reg.rd, sIn, sOut) THEN FailW(s, "unmodelled_row")
     ELSE
       LET r == LossLessRow(amt, reg.rn, reg.rd, sIn, sOut)
-          why == LossLessWhy(amt, reg.rn, reg.rd, sIn, sOut)
+          \* the minted coin is the min unit `out`; GetToken(out) resolved a token
+          \* whose SYMBOL is `out` and took that token's scale
+          why == IF sOut # ScaleOfMinUnit(s, out) THEN "swap_scale_by_symbol"
+                 ELSE LossLessWhy(amt, reg.rn, reg.rd, sIn, sOut)
       IN
       IF r.burn < 0 THEN PanicW(s, why)
       ELSE IF s.bal[who][mu] < r.burn THEN FailW(s, "insufficient")
@@ -443,8 +452,10 @@ SwapObs(s, e, t) ==
         burn |-> s.supply[e.mu] - t.supply[e.mu],
         mint |-> t.supply[reg.to] - s.supply[reg.to],
         rn |-> reg.rn, rd |-> reg.rd,
-        sin |-> IF HasMinUnit(s, e.mu) THEN TokOf(s, e.mu).scale ELSE 0,
-        sout |-> ScaleOf(s, reg.to)]
+        \* the decimal scales of the coins actually burned and minted (bank denoms
+        \* are min units), whatever lookup the handler used
+        sin |-> ScaleOfMinUnit(s, e.mu),
+        sout |-> ScaleOfMinUnit(s, reg.to)]
 
 C10_NoOverBurn(s, e, t) ==
   IsSwap(s, e) => LET o == SwapObs(s, e, t) IN Swap_NoOverBurn(o.input, o.burn, o.mint)
